@@ -43,7 +43,7 @@ pub fn estep(args: &[&str]) -> Option<Vec<String>> {
 pub fn wire(args: &[&str]) -> Option<Vec<String>> {
     let kind = *args.first()?;
     let msg = unhex(args.get(1)?)?;
-    let listener = TcpListener::bind("127.0.0.1:0").ok()?;
+    let listener = TcpListener::bind((crate::util::lo(), 0)).ok()?;
     let port = listener.local_addr().ok()?.port();
     let server = std::thread::spawn(move || {
         use std::io::Write;
@@ -68,7 +68,7 @@ pub fn wire(args: &[&str]) -> Option<Vec<String>> {
     match kind {
         "s" => {
             let mut c = lettre::transport::smtp::client::SmtpConnection::connect(
-                ("127.0.0.1", port),
+                (crate::util::lo(), port),
                 Some(std::time::Duration::from_secs(5)),
                 &hello,
                 None,
@@ -86,7 +86,7 @@ pub fn wire(args: &[&str]) -> Option<Vec<String>> {
             rt.block_on(async {
                 let mut c =
                     lettre::transport::smtp::client::AsyncSmtpConnection::connect_tokio1(
-                        ("127.0.0.1", port),
+                        (crate::util::lo(), port),
                         Some(std::time::Duration::from_secs(5)),
                         &hello,
                         None,
@@ -112,7 +112,7 @@ pub fn wire2(args: &[&str]) -> Option<Vec<String>> {
     let kind = *args.first()?;
     let m1 = unhex(args.get(1)?)?;
     let m2 = unhex(args.get(2)?)?;
-    let listener = TcpListener::bind("127.0.0.1:0").ok()?;
+    let listener = TcpListener::bind((crate::util::lo(), 0)).ok()?;
     let port = listener.local_addr().ok()?.port();
     let server = std::thread::spawn(move || {
         use std::io::Write;
@@ -133,7 +133,7 @@ pub fn wire2(args: &[&str]) -> Option<Vec<String>> {
     let hello = lettre::transport::smtp::extension::ClientId::Domain("h".into());
     match kind {
         "s" => {
-            let mut c = lettre::transport::smtp::client::SmtpConnection::connect(("127.0.0.1", port), Some(std::time::Duration::from_secs(5)), &hello, None, None).ok()?;
+            let mut c = lettre::transport::smtp::client::SmtpConnection::connect((crate::util::lo(), port), Some(std::time::Duration::from_secs(5)), &hello, None, None).ok()?;
             c.message(&m1).ok()?;
             c.message(&m2).ok()?;
             drop(c);
@@ -141,7 +141,7 @@ pub fn wire2(args: &[&str]) -> Option<Vec<String>> {
         "a" => {
             let rt = tokio::runtime::Builder::new_current_thread().enable_all().build().ok()?;
             rt.block_on(async {
-                let mut c = lettre::transport::smtp::client::AsyncSmtpConnection::connect_tokio1(("127.0.0.1", port), Some(std::time::Duration::from_secs(5)), &hello, None, None).await.ok()?;
+                let mut c = lettre::transport::smtp::client::AsyncSmtpConnection::connect_tokio1((crate::util::lo(), port), Some(std::time::Duration::from_secs(5)), &hello, None, None).await.ok()?;
                 c.message(&m1).await.ok()?;
                 c.message(&m2).await.ok()?;
                 drop(c);
@@ -169,7 +169,7 @@ pub fn bigwire(args: &[&str]) -> Option<Vec<String>> {
     expected.update(b"\r\n.\r\n");
     let expected = expected.finalize();
     let expected_len = msg.len() + 5;
-    let listener = TcpListener::bind("127.0.0.1:0").ok()?;
+    let listener = TcpListener::bind((crate::util::lo(), 0)).ok()?;
     let port = listener.local_addr().ok()?.port();
     let server = std::thread::spawn(move || {
         use std::io::Write;
@@ -201,7 +201,7 @@ pub fn bigwire(args: &[&str]) -> Option<Vec<String>> {
     let hello = lettre::transport::smtp::extension::ClientId::Domain("h".into());
     let ok = match kind {
         "s" => {
-            let mut c = lettre::transport::smtp::client::SmtpConnection::connect(("127.0.0.1", port), Some(std::time::Duration::from_secs(20)), &hello, None, None).ok()?;
+            let mut c = lettre::transport::smtp::client::SmtpConnection::connect((crate::util::lo(), port), Some(std::time::Duration::from_secs(20)), &hello, None, None).ok()?;
             let r = c.message(&msg).is_ok();
             drop(c);
             r
@@ -209,7 +209,7 @@ pub fn bigwire(args: &[&str]) -> Option<Vec<String>> {
         "a" => {
             let rt = tokio::runtime::Builder::new_current_thread().enable_all().build().ok()?;
             rt.block_on(async {
-                let mut c = lettre::transport::smtp::client::AsyncSmtpConnection::connect_tokio1(("127.0.0.1", port), Some(std::time::Duration::from_secs(20)), &hello, None, None).await.ok()?;
+                let mut c = lettre::transport::smtp::client::AsyncSmtpConnection::connect_tokio1((crate::util::lo(), port), Some(std::time::Duration::from_secs(20)), &hello, None, None).await.ok()?;
                 let r = c.message(&msg).await.is_ok();
                 drop(c);
                 Some(r)
